@@ -271,6 +271,7 @@ Proof.
   - vm_compute. discriminate.
   - intros sn E. discriminate.
 Qed.
+Print Assumptions w_setting.
 
 (* every sign x sign x encrypt setting that meets the requirements, with and without an SP
    encryption certificate, arrives; the attributes are read under the documented names
